@@ -166,6 +166,14 @@ def runIsect : P String := do
   let b2 ← pt
   pure (showIsect (ar.isect a1 a2 b1 b2))
 
+def runNextAfter : P String := do
+  let (ar, prec) ← arith
+  let x ← rat
+  if !(x = 0 || ratInRange prec x) then pure "SKIP-RANGE" else
+  let up := ar.nextUp x
+  let down := -(ar.nextUp (-x))
+  pure s!"OK {showRat up} {showRat down}"
+
 def runOrient : P String := do
   let _ ← arith
   let a ← pt
@@ -433,6 +441,7 @@ def answer (req : String) (resolve : Nat → Option MPoly := fun _ => none) : St
   | some "CMPSEG" => run (runCmpSeg false)
   | some "ISECT" => run runIsect
   | some "ORIENT" => run runOrient
+  | some "NEXTAFTER" => run runNextAfter
   | some "PI" => run runPI
   | some "CF" => run runCF
   | some "SPLAYMAP" => run runSplayMap
